@@ -154,12 +154,13 @@ class Ctx(object):
             return False
         res = self.replay_in_subprocess(replayer, replay_args)
         if res.get('failed'):
-            self._fam_reports[fam] = cnt + 1
             ci = canonical_input if canonical_input is not None else replay_args
-            self.violation(obligation, ci, res.get('observed'), res.get('expected'),
-                           replayer=replayer, replay_args=replay_args, function=function,
-                           solver_output=solver_output, text=text)
-            return True
+            r = self.violation(obligation, ci, res.get('observed'), res.get('expected'),
+                               replayer=replayer, replay_args=replay_args, function=function,
+                               solver_output=solver_output, text=text)
+            if r != 'known':
+                self._fam_reports[fam] = cnt + 1
+            return r or True
         self.notes.append('candidate for %s did not replay: %s' % (obligation, jdump(res)[:300]))
         if res.get('error'):
             # the replayer itself crashed: a fault of the checking machinery, never a verdict
